@@ -100,20 +100,38 @@ class Pair(Expr):
     p: tuple[Lit, Var]
 
 
+@dataclass
+class Tag(Expr):
+    label: str          # a PLAIN str field (no refinement): drawn through the decider's own string primitive
+    e: Expr
+
+
 # productions spread over modules, imported in the order this process's environment asks for
 sys.path.insert(0, os.path.dirname(os.path.abspath(__file__)))
 import importlib  # noqa: E402
 for _m in (("ma", "mb", "mc") if os.environ.get("C08_IMPORT_ORDER", "a") == "a" else ("mc", "mb", "ma")):
     importlib.import_module("c08mods." + _m)
+if os.environ.get("C08_HOLES", "0") == "1":
+    # an allocation history with HOLES: many small objects, freed in address order, so that the allocator hands the next
+    # objects of that size out from the top down -- objects created one after the other then lie in the opposite address order
+    class _Junk:
+        def __init__(self, a, b):
+            self.min, self.max = a, b
+    _junk = [_Junk(i, i + 1) for i in range(4000)]
+    _junk.sort(key=id)
+    while _junk:
+        _junk.pop(0)
+from c08mods.floats import Both, High, Level, Low  # noqa: E402
 from c08mods.base import Shape  # noqa: E402
 from c08mods.ma import Dot  # noqa: E402
 from c08mods.mb import Frame  # noqa: E402
 from c08mods.mc import Group  # noqa: E402
 
 GRAMMARS = {
-    "full": ([Lit, Var, Add, Neg, Sum, If, Less, Flag, Pair], Expr),
+    "full": ([Lit, Var, Add, Neg, Sum, If, Less, Flag, Pair, Tag], Expr),
     "plain": ([Lit, Var, Add, Neg, Less, Flag, If], Expr),
     "split": ([Frame, Dot, Group], Shape),
+    "floats": ([Low, High, Both], Level),
 }
 
 
@@ -121,7 +139,10 @@ def size(p) -> int:
     return len(repr(p))
 
 
-def run_one(algo: str, rep_name: str, gname: str, seed: int, budget: int, own_tracker: bool = False):
+_SHARED_REPS: dict = {}
+
+
+def run_one(algo: str, rep_name: str, gname: str, seed: int, budget: int, own_tracker: bool = False, shared_rep: bool = False):
     considered, start = GRAMMARS["full" if gname == "usable" else gname]
     g = extract_grammar(considered, start)
     if gname == "usable":
@@ -138,6 +159,9 @@ def run_one(algo: str, rep_name: str, gname: str, seed: int, budget: int, own_tr
         rep = StructuredGrammaticalEvolutionRepresentation(g, MaxDepthDecider(r, g, 5), gene_length=48)
     elif rep_name == "dsge":
         rep = DynamicStructuredGrammaticalEvolutionRepresentation(g, 5)
+        if shared_rep:
+            # ONE representation object serves several searches (it holds no random source: nothing of a search lives in it)
+            rep = _SHARED_REPS.setdefault((gname, "dsge"), rep)
     else:
         rep = StackBasedGGGPRepresentation(g, gene_length=256)
     log = []
@@ -183,6 +207,9 @@ def main():
         # the same search again, one after the other in THIS process, with a user-supplied tracker
         out[key + "#again"] = run_one(algo, rep_name, gname, seed, budget, own_tracker=True)
         out[key + "#again2"] = run_one(algo, rep_name, gname, seed, budget, own_tracker=True)
+        if rep_name == "dsge":
+            out[key + "#sharedrep1"] = run_one(algo, rep_name, gname, seed, budget, shared_rep=True)
+            out[key + "#sharedrep2"] = run_one(algo, rep_name, gname, seed, budget, shared_rep=True)
     print("C08RESULT " + json.dumps(out))
 
 
